@@ -38,6 +38,10 @@ CHECKS = {
    "The current sources of stream (and everything it uses) are mechanically rewritten so that every channel operation, select, go statement, sync/atomic/context/time call runs on a deterministic cooperative runtime; the explorer then enumerates every execution of 33 closed scenarios (buffer 0/1/2; one or two senders using Send or TrySend; Close(nil)/Close(err) from a sender or a third thread; receiver reading to the end plus two more calls or closing early; context cancellation) with at most 2-3 preemptions (thorough 3-4), including both outcomes whenever several select arms are ready. Oracle on the call/return log: only sent values, at most once, per-sender order; every value acknowledged before Close was called is received before End/err; End/err sticky once no Send is in flight; documented error values; TrySend never parks; no deadlock (a call blocked forever shows as one).",
    "Code between two synchronisation operations is an atomic step (extra scheduling points are inserted after close/unlock/atomic writes/cancel to expose publish-before-write orders); memory-model effects below sequential consistency are out of scope. The runtime's channel/select/sync semantics are pinned by mc/mc_test.go. Bounded: <=3 threads besides the receiver, <=3 values, preemption bound as stated in the evidence.",
    "DESIGN.md §4 C10"),
+ "C16": ("gomc", "stateless model checking of the real xsync.ContextCond under a controlled scheduler: all schedules within an iterated preemption bound (every schedule for the one-waiter scenarios), quiescence oracle",
+   "18 closed scenarios on the transformed real code: k = 1..3 waiters (each Lock; Wait through a Locker whose Unlock the harness observes), a signaller that waits until all k have released the lock and then issues m = 1..3 Signals or one Broadcast, optionally a thread cancelling one waiter's context at any moment, optionally Broadcasts issued before any waiter exists. Every schedule is explored for k = 1, m <= 2; otherwise every schedule with at most 2 (thorough 3) preemptions (k = 3 additionally at most 3 non-default choices at blocking points). Oracle at quiescence: a waiter with a live context is still blocked although fewer Waits returned nil than Signals were issued (or any waiter blocked after Broadcast) = lost wakeup; nil return holds the lock; error return is the context's error, without the lock; no cancelled waiter left blocked. The known capacity-1 defect (k >= 2, m >= 2) is a recorded finding; exploration continues below it so other violations are still reported.",
+   "As C10 (atomic steps between synchronisation operations, runtime semantics pinned by unit tests). 'Entered Wait' = has released the caller's lock. Known finding masks only lost-wakeup reports of scenarios with k >= 2 and m >= 2.",
+   "DESIGN.md §4 C16"),
 }
 props = [json.loads(l) for l in open(os.path.join(ROOT, "properties.jsonl"))]
 hook_commits = subprocess.run(["git","-C","/repo","log","--format=%H %s","--grep=^verif hook"],capture_output=True,text=True).stdout.strip().splitlines()
